@@ -33,7 +33,9 @@ import (
 	"github.com/EdgeCast/vflow/reader"
 )
 
-type nonfatalError error
+type nonfatalError struct {
+	error
+}
 
 // PacketHeader represents Netflow v9  packet header
 type PacketHeader struct {
@@ -349,8 +351,8 @@ func (d *Decoder) decodeData(tr TemplateRecord) ([]DecodedField, error) {
 		}]
 
 		if !ok {
-			return nil, nonfatalError(fmt.Errorf("Netflow element key (%d) not exist (scope)",
-				tr.ScopeFieldSpecifiers[i].ElementID))
+			return nil, nonfatalError{fmt.Errorf("Netflow element key (%d) not exist (scope)",
+				tr.ScopeFieldSpecifiers[i].ElementID)}
 		}
 
 		fields = append(fields, DecodedField{
@@ -371,8 +373,8 @@ func (d *Decoder) decodeData(tr TemplateRecord) ([]DecodedField, error) {
 		}]
 
 		if !ok {
-			return nil, nonfatalError(fmt.Errorf("Netflow element key (%d) not exist",
-				tr.FieldSpecifiers[i].ElementID))
+			return nil, nonfatalError{fmt.Errorf("Netflow element key (%d) not exist",
+				tr.FieldSpecifiers[i].ElementID)}
 		}
 
 		fields = append(fields, DecodedField{
@@ -441,10 +443,10 @@ func (d *Decoder) decodeSet(mem MemCache, msg *Message) error {
 		var ok bool
 		tr, ok = mem.retrieve(setHeader.FlowSetID, d.raddr)
 		if !ok {
-			err = nonfatalError(fmt.Errorf("%s unknown netflow template id# %d",
+			err = nonfatalError{fmt.Errorf("%s unknown netflow template id# %d",
 				d.raddr.String(),
 				setHeader.FlowSetID,
-			))
+			)}
 		}
 	}
 
@@ -453,10 +455,10 @@ func (d *Decoder) decodeSet(mem MemCache, msg *Message) error {
 	minRecordLen := 4
 	if err == nil && setHeader.FlowSetID > 255 {
 		if minRecordLen = tr.recordLen(); minRecordLen == 0 {
-			err = nonfatalError(fmt.Errorf("%s netflow template id# %d describes empty records",
+			err = nonfatalError{fmt.Errorf("%s netflow template id# %d describes empty records",
 				d.raddr.String(),
 				setHeader.FlowSetID,
-			))
+			)}
 		}
 	}
 
